@@ -170,6 +170,11 @@ def step (s : Unit) (line : String) : Unit × String :=
     | some f, some root, some first, some (ps, tbl) =>
       (s, showRRes (verifyEmpty (tableAlg tbl) f root first ps))
     | _, _, _, _ => (s, "bad-op")
+  | "r2" :: "all" :: root :: height :: rest =>
+    let (kvToks, factToks) := splitAtBar rest
+    match hexToNat? root, height.toNat?, parseAll parseKV kvToks, parseAll parseFact factToks with
+    | some root, some h, some kvs, some facts => (s, showRRes (verifyAll (tableAlg facts) root h kvs))
+    | _, _, _, _ => (s, "bad-op")
   | "r2" :: cfg :: "multi" :: root :: first :: rest =>
     let (kvToks, rest2) := splitAtBar rest
     let (nodeToks, factToks) := splitAtBar rest2
